@@ -10,6 +10,7 @@ import (
 	"fmt"
 	"io"
 	"log"
+	"math"
 	"strconv"
 	"sync"
 	"time"
@@ -284,6 +285,11 @@ func (tdsChan *Channel) handleSpecialPackage(pkg Package) (bool, error) {
 				if err != nil {
 					return false, fmt.Errorf("error parsing new packet size '%s' to int: %w",
 						member.NewValue, err)
+				}
+				// A packet must have room for data after its header
+				// and its length must fit into the header.
+				if packSize <= PacketHeaderSize || packSize > math.MaxUint16 {
+					return false, fmt.Errorf("invalid new packet size %d", packSize)
 				}
 				tdsChan.tdsConn.packetSize = packSize
 			}
